@@ -45,6 +45,35 @@ def representatives(with_null=True):
     return out
 
 
+def list_representatives():
+    """(label, builder, numeric tuple or None): list values incl. mixed integer representations, nulls, nesting."""
+    def L(*mk):
+        return lambda: A.Enum(FV, "List", [A.VecV([m() for m in mk])])
+    i = lambda x: (lambda: fv("Int64", x, "i64"))
+    u = lambda x: (lambda: fv("Uint64", x, "u64"))
+    s = lambda x: (lambda: fv("String", x, "str"))
+    null = lambda: fv("Null")
+    big = I64_MAX + 1
+    return [
+        ("List[]", L(), ()),
+        ("List[Int64(1)]", L(i(1)), (1,)),
+        ("List[Uint64(1)]", L(u(1)), (1,)),
+        ("List[Int64(-1)]", L(i(-1)), (-1,)),
+        ("List[Uint64(2^63)]", L(u(big)), (big,)),
+        ("List[Int64(1),Uint64(2)]", L(i(1), u(2)), (1, 2)),
+        ("List[Uint64(1),Int64(2)]", L(u(1), i(2)), (1, 2)),
+        ("List[Uint64(1),Int64(1)]", L(u(1), i(1)), (1, 1)),
+        ("List[Int64(2)]", L(i(2)), (2,)),
+        ("List[List[Int64(1)]]", L(L(i(1))), ((1,),)),
+        ("List[List[Uint64(1)]]", L(L(u(1))), ((1,),)),
+        ("List[List[Uint64(1),Int64(0)]]", L(L(u(1), i(0))), ((1, 0),)),
+        ("List[Null,Int64(1)]", L(null, i(1)), None),
+        ("List[Null,Uint64(1)]", L(null, u(1)), None),
+        ("List[String(#1)]", L(s(1)), None),
+        ("List[String(#1),String(#2)]", L(s(1), s(2)), None),
+    ]
+
+
 def ordering(a, b):
     return A.Enum(ORDERING, "Less" if a < b else "Greater" if a > b else "Equal")
 
@@ -63,6 +92,14 @@ def target_int_type(ip, n):
 
 
 def intrinsics():
+    """std collection / iterator model (tfv.stdmodel) overridden by the FieldValue-specific integer semantics below."""
+    from tfv import stdmodel
+    base = stdmodel.intrinsics()
+    base.update(_fv_intrinsics())
+    return base
+
+
+def _fv_intrinsics():
     def try_conv(ip, n, args):
         x = A.deref(args[0])
         if not isinstance(x, A.Sym) or x.ty not in RANGES:
@@ -85,6 +122,15 @@ def intrinsics():
             f = ip.user_impl(a.adt, "core::cmp::PartialOrd", "partial_cmp")
             if f is not None:
                 return ip.call_fn(f, [a, b])
+        if isinstance(a, A.VecV) and isinstance(b, A.VecV):
+            # std's slice partial_cmp: lexicographic over the elements' partial_cmp, then by length
+            for x, y in zip(a.items, b.items):
+                o = A.deref(partial_cmp(ip, n, [x, y]))
+                if o.variant == "None":
+                    return o
+                if A.deref(o.fields[0]).variant != "Equal":
+                    return o
+            return some(ordering(len(a.items), len(b.items)))
         raise A.Unsupported("partial_cmp of %r and %r" % (a, b))
 
     def cmp(ip, n, args):
